@@ -124,6 +124,19 @@ func timeoutInputs(tier string, seed int64) []string {
 	for _, v := range []string{"\x1e", "5", "12345678", "5s", "5h", "5U", "5N", "5d", "5ms", "5 S", "S5", "-", "+", "--5S", "5\x00S", "5\tS", "NaNS", "InfS", "1e2S", "٠S"} {
 		add(v)
 	}
+	// every byte value in the unit position (only the six letters of the specification are units)
+	// (bytes above 0x7f alone are not valid UTF-8 - the known finding D6 - so multi-byte letters stand in)
+	for b := 0; b < 128; b++ {
+		if b == 0x1e || b == 0x1f { // (the script language's own tokens)
+			continue
+		}
+		add("5" + string([]byte{byte(b)}))
+		add("12345678" + string([]byte{byte(b)}))
+	}
+	for _, u := range []string{"µ", "μ", "é", "ｓ", " ", " ", "😀"} {
+		add("5" + u)
+		add("12345678" + u)
+	}
 	// repeated headers (separator \x1f): last wins when all are valid
 	for _, v := range [][]string{{"5S", "7S"}, {"7S", "5S"}, {"1H", "1n"}, {"5S", "bogus"}, {"bogus", "5S"}, {"-1S", "3S"}, {"3S", "-1S"}, {"5S", "\x1e"}, {"\x1e", "5S"}, {"\x1e", "\x1e"}, {"S", "5S"}, {"5S", "S"}} {
 		add(strings.Join(v, "\x1f"))
